@@ -35,7 +35,9 @@ class Builder:
         self.memo = {}
         self.den.reset()
 
-    def __call__(self, mask):
+    def __call__(self, mask, start=0):
+        # `start`: no variable at a level above it is essential (callers other than the
+        # recursion leave it at 0)
         U = self.U
         if mask == U.full:
             return 1
@@ -45,15 +47,15 @@ class Builder:
         if r is not None:
             return r
         m = self.m
-        for lvl in range(len(m.vars)):
+        for lvl in range(start, len(m.vars)):
             name = m.var_at_level(lvl)
             if name not in U.idx:
                 continue
             f0 = U.cof(mask, name, 0)
             f1 = U.cof(mask, name, 1)
             if f0 != f1:
-                lo = self(f0)
-                hi = self(f1)
+                lo = self(f0, lvl + 1)
+                hi = self(f1, lvl + 1)
                 r = m.find_or_add(lvl, lo, hi)
                 self.memo[mask] = r
                 return r
@@ -275,8 +277,57 @@ def wide_manager(nvars, rot=0):
     return S.new_bdd({v: i for i, v in enumerate(decl)}), decl
 
 
+XWIDE = 40      # declared variables of a "very wide" manager
+XWIDE_POOL = (0, 1, 2, 30, 31, 32, 33, 34, 38, 39)
+
+
 def wide_subsets(nvars, k):
+    """Every k-subset of the levels; for a very wide manager (>= 32 variables) every k-subset
+    of a pool of ten levels that straddles 8, 16 and 32."""
+    if nvars >= 32:
+        pool = [i for i in XWIDE_POOL if i < nvars - 2] + [nvars - 2, nvars - 1]
+        return list(itertools.combinations(sorted(set(pool)), k))
     return list(itertools.combinations(range(nvars), k))
+
+
+def wide_k(nvars):
+    return 5 if nvars >= 32 else 3
+
+
+def wide_functions(U, names):
+    """All functions of up to three names; a written-out family (each with full support) of
+    more names."""
+    names = tuple(names)
+    if len(names) <= 3:
+        return U.all_functions(names)
+    X = [U.var(v) for v in names]
+    F = U.full
+    conj, disj, par = F, 0, 0
+    for x in X:
+        conj &= x
+        disj |= x
+        par ^= x
+    thr = 0
+    for i in range(len(X)):
+        for j in range(i + 1, len(X)):
+            thr |= X[i] & X[j]
+    sop = 0
+    for i in range(0, len(X) - 1, 2):
+        sop |= X[i] & (F ^ X[i + 1])
+    if len(X) % 2:
+        sop ^= X[-1]
+    mux = U.ite(X[0], X[1] ^ X[2], X[3]) if len(X) == 4 else U.ite(X[0], X[1] ^ X[2], X[3] & X[4])
+    for x in X[5:]:
+        mux ^= x
+    chain = X[-1]
+    for x in reversed(X[:-1]):
+        chain = U.ite(x, F ^ chain, chain & X[-1]) | (x & X[-1])
+    fam = [conj, F ^ disj, par, thr, sop, mux, F ^ chain]
+    out = []
+    for f in fam:
+        if f not in out and U.support(f) == set(names):
+            out.append(f)
+    return out
 
 
 def norm(x):
